@@ -22,6 +22,9 @@ type Env struct {
 
 	Task  int
 	sched *Sched
+	// Shared is an object several parties of one world legitimately share read-only (C18:
+	// the common parent emitter of a clone group); nil when the party runs alone.
+	Shared interface{}
 
 	yields    uint64
 	maxYields uint64
